@@ -645,11 +645,13 @@ def search_c11(seed, tier, limit=5):
         for s1 in C.SIGS[dim]:
             for s2 in (C.SIGS[dim] if tier == "thorough" else r.sample(C.SIGS[dim], min(2, len(C.SIGS[dim])))):
                 s3 = r.choice(C.SIGS[dim])
-                k = r.randrange(len(pts) - 2)
-                n += 1
-                kk = r.choice([0.7, 2.5]) if (dim == 4) else r.choice([-1.7, 0.4, 3.0])
-                run(c11_laws, {"s1": list(s1), "s2": list(s2), "s3": list(s3), "p1": pts[k], "p2": pts[k + 1], "p3": pts[k + 2],
-                               "k": repr(kk), "k2": repr(r.choice([1.5, 0.25]))}, out, limit)
+                # every consecutive triple of the stratified points (all sign patterns / quadrants meet each other, in both orders)
+                for k in range(len(pts) - 2):
+                    n += 1
+                    kk = r.choice([0.7, 2.5]) if (dim == 4) else r.choice([-1.7, 0.4, 3.0])
+                    trip = (pts[k], pts[k + 1], pts[k + 2]) if k % 2 == 0 else (pts[k + 2], pts[k], pts[k + 1])
+                    run(c11_laws, {"s1": list(s1), "s2": list(s2), "s3": list(s3), "p1": trip[0], "p2": trip[1], "p3": trip[2],
+                                   "k": repr(kk), "k2": repr(r.choice([1.5, 0.25]))}, out, limit)
     return out, n
 
 
